@@ -549,6 +549,11 @@ func (p precompileFunToken) sendToEvm(
 	if err != nil {
 		return nil, ErrInvalidArgs(err)
 	}
+	// The denom is used as a string key of the FunToken index below, and the key
+	// encoder panics on malformed strings (e.g. a NUL byte).
+	if err := sdk.ValidateDenom(bankDenom); err != nil {
+		return nil, ErrInvalidArgs(err)
+	}
 
 	// load the FunToken mapping
 	//   For bankDenom, check if there's an existing funtoken
